@@ -14,20 +14,20 @@ import (
 type vocab struct {
 	P *core.Program
 
-	connT, elT, engineT *types.Named
-	opened, fdF, pollAtt *types.Var
+	connT, elT, engineT       *types.Named
+	opened, fdF, pollAtt      *types.Var
 	outbound, inbound, buffer *types.Var
-	loopF                *types.Var
-	closeFn, releaseFn   *types.Func
+	loopF                     *types.Var
+	closeFn, releaseFn        *types.Func
 	delConn, addConn, getConn *types.Func
-	handler              map[string]*types.Func // EventHandler methods
-	asyncCB              *types.Named
-	runnableRun          *types.Func
-	elasticIsEmpty       *types.Func
+	handler                   map[string]*types.Func // EventHandler methods
+	asyncCB                   *types.Named
+	runnableRun               *types.Func
+	elasticIsEmpty            *types.Func
 
-	funcs    []*fn                 // every function declaration of package gnet
+	funcs    []*fn // every function declaration of package gnet
 	byObj    map[*types.Func]*fn
-	mayClose map[*types.Func]bool  // in-package functions that may run a user callback / close a connection
+	mayClose map[*types.Func]bool // in-package functions that may run a user callback / close a connection
 	ok       bool
 }
 
